@@ -6,13 +6,16 @@ EXTENDS SelEnum, TLC, Json
 CONSTANTS Chunk, Depth3         \* ASTs per behaviour; include the depth-3 families
 
 All == Leaves \o Depth2 \o (IF Depth3 THEN Depth3Seq ELSE <<>>)
-NChunks == (Len(All) + Chunk - 1) \div Chunk
-ChunkOf(c) == LET lo == (c - 1) * Chunk + 1
-                  hi == IF c * Chunk < Len(All) THEN c * Chunk ELSE Len(All)
-              IN [j \in 1..(hi - lo + 1) |-> [op |-> "ast", ast |-> All[lo + j - 1]]]
+\* NB: the sequence is bound once by a LET (TLC memoises LET-bound values); referring to `All` inside
+\* the loops would rebuild the whole sequence at every use.
+ChunkOf(A, c) == LET lo == (c - 1) * Chunk + 1
+                     hi == IF c * Chunk < Len(A) THEN c * Chunk ELSE Len(A)
+                 IN [j \in 1..(hi - lo + 1) |-> [op |-> "ast", ast |-> A[lo + j - 1]]]
 
-ASSUME PrintT(<<"GEN_ASTS", Len(Leaves), Len(Depth2), IF Depth3 THEN Len(Depth3Seq) ELSE 0, Len(All)>>)
-ASSUME \A c \in 1..NChunks : PrintT("BEH " \o ToJson(ChunkOf(c)))
+ASSUME PrintT(<<"GEN_ASTS", Len(Leaves), Len(Depth2), IF Depth3 THEN Len(Depth3Seq) ELSE 0>>)
+ASSUME LET A == All
+           nch == (Len(A) + Chunk - 1) \div Chunk
+       IN \A c \in 1..nch : PrintT("BEH " \o ToJson(ChunkOf(A, c)))
 
 VARIABLE done
 GInit == done = FALSE
